@@ -314,4 +314,15 @@ def gen_pyobj() -> typing.Tuple[bool, str]:
     return True, 'pick_width over %r; template facts %s arrelem_quirk=%s' % (widths, ' '.join('%s=%s' % (k[2:], facts[k]) for k in ORDER), facts['arrelem_quirk'])
 
 
-GENERATORS = {'pyobj': gen_pyobj}
+SUPPORT = 'src/nunavut/lang/py/support/nunavut_support.j2'
+SUPPORT_FUNCS = ['to_builtin', '_to_builtin_impl', 'update_from_builtin', 'get_class', 'get_model', 'get_attribute', 'set_attribute']
+
+
+def pin_c18support() -> typing.Tuple[bool, str]:
+    """shape pin (tools/translators/shape_pin.py) on the reflection / conversion functions of the support library that
+    Gen/PyObj.v models by hand (tb, ufb, default_obj lookups): pins/c18support.txt, Generated/Gen_Pin_c18support.v"""
+    from . import shape_pin
+    return shape_pin.check_pin('c18support', [(SUPPORT, f) for f in SUPPORT_FUNCS])
+
+
+GENERATORS = {'pyobj': gen_pyobj, 'pin_c18support': pin_c18support}
